@@ -19,7 +19,7 @@ def _flat_terms(x):
     if isinstance(x, SymReal):
         return [x.t]
     if isinstance(x, np.ndarray) and x.dtype == object:
-        return [lift(e) for e in x.ravel()]
+        return [lift(e) for e in x.view(np.ndarray).ravel()]
     if isinstance(x, (list, tuple)) and _contains_sym(x):
         out = []
         for e in x:
@@ -52,8 +52,49 @@ def _keyrepr(v):
     return repr(v)
 
 
+class SymComplex:
+    """a complex kernel output known only as two z3 real terms (opt-in: KernelModel.complex_outputs)"""
+    __slots__ = ("re", "im")
+    shape = ()
+    size = 1
+    ndim = 0
+
+    def __init__(self, re, im):
+        self.re, self.im = re, im
+
+    def _s(self, o, f):
+        if isinstance(o, SymComplex):
+            return NotImplemented
+        if lift(o) is None:
+            return NotImplemented
+        return SymComplex(f(self.re, o), f(self.im, o))
+
+    def __mul__(self, o): return self._s(o, lambda a, b: a * b)
+    __rmul__ = __mul__
+    def __truediv__(self, o): return self._s(o, lambda a, b: a / b)
+    def __neg__(self): return SymComplex(-self.re, -self.im)
+    def conjugate(self): return SymComplex(self.re, -self.im)
+    conj = conjugate
+
+    @property
+    def real(self): return self.re
+
+    @property
+    def imag(self): return self.im
+
+    __hash__ = None
+
+    def __repr__(self):
+        return f"C<{self.re!r},{self.im!r}>"
+
+
 class KernelModel:
     log = []
+    calls = []               # structured log of modelled calls: dict(name, key, items, result) (harnesses clear it per path)
+    complex_outputs = False  # opt-in: complex kernel outputs become SymComplex pairs instead of Unsupported
+    strict = False           # opt-in: see __call__
+    strict_patterns = ("SymReal", "dtype('O')", "safely", "not supported for the input types", "must be real", "No loop matching", "Cannot cast")
+    integer_outputs = False  # opt-in: integer/boolean kernel outputs (counts, ranks) become real-valued uninterpreted functions
 
     def __init__(self, real):
         self.real = real
@@ -66,7 +107,15 @@ class KernelModel:
             return impl(*args, **kwargs)
         except (TypeError, ValueError, AttributeError, np.exceptions.DTypePromotionError, np.linalg.LinAlgError, SystemError) as e:
             msg = str(e)
-            if not any(s in msg for s in ("SymReal", "dtype('O')", "object", "Object", "safely", "not supported for the input types", "must be real", "ufunc", "No loop matching")):
+            if KernelModel.strict:
+                # opt-in: only NumPy's own refusal of the object payload is answered by the model; an exception raised by
+                # unyt code (innermost frame under the repository) is the library's outcome and propagates
+                tb = e.__traceback__
+                while tb.tb_next is not None:
+                    tb = tb.tb_next
+                if "/unyt/" in tb.tb_frame.f_code.co_filename or not any(s in msg for s in KernelModel.strict_patterns):
+                    raise
+            elif not any(s in msg for s in ("SymReal", "dtype('O')", "object", "Object", "safely", "not supported for the input types", "must be real", "ufunc", "No loop matching")):
                 raise
         return self.model(args, kwargs)
 
@@ -117,23 +166,37 @@ class KernelModel:
             if a.dtype.kind == "f":
                 return mk(a, tag)
             if a.dtype.kind == "c":
+                if KernelModel.complex_outputs:
+                    re, im = mk(a.real, tag + "re"), mk(a.imag, tag + "im")
+                    if a.shape == ():
+                        return SymComplex(re, im)
+                    res = np.empty(a.shape, dtype=object)
+                    for idx in np.ndindex(*a.shape):
+                        res[idx] = SymComplex(re[idx], im[idx])
+                    return res
                 raise Unsupported(f"complex-valued kernel output of {name}")
+            if a.dtype.kind in "iub" and a.size and KernelModel.integer_outputs:
+                return mk(a, tag)
             return o  # integer / boolean outputs depend on data ordering: keep the dry-run value only if payload-free
         if isinstance(dry, tuple) or hasattr(dry, "_fields"):
             outs = []
             for j, o in enumerate(dry):
                 a = np.asarray(o)
-                if a.dtype.kind in "iub" and a.size:
+                if a.dtype.kind in "iub" and a.size and not KernelModel.integer_outputs:
                     raise Unsupported(f"data-dependent integer output of {name}")
                 outs.append(conv(o, f".{j}"))
             try:
-                return type(dry)(*outs) if hasattr(dry, "_fields") else tuple(outs)
+                res = type(dry)(*outs) if hasattr(dry, "_fields") else tuple(outs)
             except TypeError:
-                return tuple(outs)
+                res = tuple(outs)
+            KernelModel.calls.append(dict(name=name, key=key, items=items, result=res))
+            return res
         a = np.asarray(dry)
-        if a.dtype.kind in "iub" and a.size:
+        if a.dtype.kind in "iub" and a.size and not KernelModel.integer_outputs:
             raise Unsupported(f"data-dependent integer output of {name}")
-        return conv(dry, "")
+        res = conv(dry, "")
+        KernelModel.calls.append(dict(name=name, key=key, items=items, result=res))
+        return res
 
 
 class FuncProxy:
@@ -141,8 +204,15 @@ class FuncProxy:
         self._real = real
         self._implementation = KernelModel(real)
 
+    call_fallback = False  # opt-in: a public call np.X(...) on stripped symbolic arrays that NumPy refuses is answered by K_X too
+
     def __call__(self, *a, **k):
-        return self._real(*a, **k)
+        if not FuncProxy.call_fallback or not isinstance(self._implementation, KernelModel):
+            return self._real(*a, **k)
+        vals = list(a) + list(k.values())
+        if not any(_contains_sym(v) for v in vals) or any(hasattr(v, "units") for v in vals):
+            return self._real(*a, **k)
+        return self._implementation(*a, **k)
 
     def __getattr__(self, k):
         return getattr(self._real, k)
@@ -175,14 +245,38 @@ class _ModelProxy(FuncProxy):
         self._implementation = model
 
 
+def _unit_tolerance(a, k):
+    """does rtol/atol (positional 3rd/4th or keyword) carry units? Then the A4 formula would hide what NumPy's own body
+    does with it (unyt arithmetic on `atol + rtol*abs(y)`)."""
+    return any(hasattr(v, "units") for v in list(a[2:4]) + [k.get("rtol"), k.get("atol")])
+
+
+def _isclose_body(a, b, rtol=1e-5, atol=1e-8, equal_nan=False):
+    """the body of numpy.isclose (numpy/_core/numeric.py) with `isfinite(y)` taken as true (A1): evaluated with NumPy's own
+    ufuncs so that a unit-carrying tolerance meets unyt's __array_ufunc__ exactly as in production"""
+    x, y = np.asanyarray(a), np.asanyarray(b)
+    return np.less_equal(np.abs(x - y), atol + rtol * np.abs(y)) | (x == y)
+
+
 class NpShimAF(NpShim):
     @property
     def isclose(self):
-        return _ModelProxy(np.isclose, lambda *a, **k: NpShim.isclose(self, *a, **k))
+        def model(*a, **k):
+            if _unit_tolerance(a, k):
+                r = _isclose_body(*a, **k)
+                return r[()] if isinstance(r, np.ndarray) and r.shape == () else r
+            return NpShim.isclose(self, *a, **k)
+        return _ModelProxy(np.isclose, model)
 
     @property
     def allclose(self):
-        return _ModelProxy(np.allclose, lambda *a, **k: NpShim.allclose(self, *a, **k))
+        def model(*a, **k):
+            if _unit_tolerance(a, k):
+                from .core import And
+                r = _isclose_body(*a, **k)
+                return And(*[e for e in np.asarray(r, dtype=object).ravel()])
+            return NpShim.allclose(self, *a, **k)
+        return _ModelProxy(np.allclose, model)
 
     def __getattr__(self, k):
         v = getattr(np, k)
